@@ -79,6 +79,19 @@ theorem elliptic_isIso {O : Matrix (Fin n) (Fin n) K} (h : O * Oᵀ = 1) :
     IsIso (elliptic O) ∧ IsIso (ellipticRow O) :=
   ⟨isIso_transpose (ellipticMat_isIso h), ellipticMat_isIso h⟩
 
+/-- `Isometry.elliptic` "stabilizes the origin": the origin `e₀ = (1,0,…,0)` of the Klein / Poincaré ball is fixed as a
+vector (not only projectively), for either value of `column_vectors`, and for any block `O` — this pins the corner entry
+`mat[0,0] = 1` of the model (a model with `−1` there is still form-preserving; found by a model-side mutant) -/
+theorem elliptic_fixes_origin (O : Matrix (Fin n) (Fin n) K) :
+    applyRow (elliptic O) (Pi.single 0 1) = Pi.single 0 1 ∧ applyRow (ellipticRow O) (Pi.single 0 1) = Pi.single 0 1 := by
+  unfold applyRow elliptic ellipticRow
+  rw [Matrix.single_one_vecMul, Matrix.single_one_vecMul]
+  constructor
+  · funext j
+    refine Fin.cases ?_ (fun j' => ?_) j <;> simp [ellipticMat, Matrix.row]
+  · funext j
+    refine Fin.cases ?_ (fun j' => ?_) j <;> simp [ellipticMat, Matrix.row]
+
 /-- `Isometry.standard_rotation(θ, dimension = m+2)` with `(c,s) = (cos θ, sin θ)` -/
 theorem rotation_isIso {c s : K} (h : c ^ 2 + s ^ 2 = 1) :
     IsIso (rotation c s : Matrix (Fin (m + 3)) (Fin (m + 3)) K) := by
